@@ -87,8 +87,8 @@ def harness_bin(feat):
 
 def parse_audit(log):
     thms = []
-    for m in re.finditer(r"AXIOMS (\S+) : \[(.*?)\]", log):
-        axs = [a.strip() for a in m.group(2).split(",") if a.strip()]
+    for m in re.finditer(r"AXIOMS (\S+) :\s*\[(.*?)\]", log, re.S):
+        axs = [a.strip() for a in m.group(2).replace("\n", " ").split(",") if a.strip()]
         thms.append((m.group(1), axs))
     count = sum(int(m.group(1)) for m in re.finditer(r"AUDIT \S+ theorems=(\d+)", log))
     return thms, count
